@@ -77,8 +77,8 @@ CLAIMED = {
    technique="exhaustive finite tables + proptest on generated directory trees against a reference predicate",
    ref="DESIGN.md §3 C20"),
  "C04": dict(
-   text="History invariant over the time-stamped call log of simulated children installed through the public spawn hook (production job task, paused tokio clock): at every spawn, every earlier child of the job has had its exit status collected. Bounded-exhaustive over all sequences of the 11 lifecycle controls up to length 3 (quick) / 4 (thorough) x {burst, settled} x 4 child classes, then random sequences (<=14 steps) with gaps, graces and child reaction delays drawn from one value pool so ties at timer deadlines are frequent, spawn/kill/signal failure injection and a generated select! seed.",
-   note="One schedule per (sequence, timing, select! seed) on tokio's current-thread scheduler; the simulated child replaces process-wrap's child object (a real /bin/true is still spawned underneath); real cross-thread interleavings are not explored.",
+   text="History invariant over the time-stamped call log of simulated children installed through the public spawn hook (production job task, paused tokio clock): at every spawn, every earlier child of the job has had its exit status collected. Bounded-exhaustive over all sequences of the 11 lifecycle controls up to length 3 (quick) / 4 (thorough) x {burst, settled} x 4 child classes, then random sequences (<=14 steps) with gaps, graces and child reaction delays drawn from one value pool so ties at timer deadlines are frequent, spawn/kill/signal failure injection, a raw ContinueTryGracefulRestart control and a generated select! seed; plus a multi-thread leg: the controls of a generated sequence sent by 2-4 concurrent tasks on a multi-thread runtime with real millisecond timers, same invariant.",
+   note="Virtual-time legs: one schedule per (sequence, timing, select! seed) on tokio's current-thread scheduler. Multi-thread leg: whatever interleavings the OS produces in 200 (quick) / 4000 (thorough) runs, not controlled or enumerated. The simulated child replaces process-wrap's child object (a real /bin/true is still spawned underneath).",
    technique="bounded-exhaustive + proptest stateful sequences over the Job API, invariant over the simulated-child call history (virtual time)",
    ref="DESIGN.md §3 C04"),
  "C06": dict(
@@ -87,8 +87,8 @@ CLAIMED = {
    technique="proptest scenario generation with a timed-history (metamorphic/time-bound) oracle on virtual time",
    ref="DESIGN.md §3 C06"),
  "C07": dict(
-   text="Model-free completion bound: a run() marker is sent right behind every control; per-priority FIFO and the held-back normal queue make the marker's execution instant an upper bound for the control's completion (for a graceful stop exactly min(process exit, grace expiry)). 1-4 bare ticket.await waiter tasks per ticket record their completion instants in virtual time (no timeout wrapper, so a lost wake-up is 'never'); compared with that bound, with job end for outstanding tickets, with the to_wait rule; closures must run exactly once; delete / delete_now / last-handle-drop and spawn/kill/signal failures at generated positions.",
-   note="Same medium as C04. The bound relies on per-priority FIFO, which C10 checks separately.",
+   text="Model-free completion bound: a run() marker is sent right behind every control; per-priority FIFO and the held-back normal queue make the marker's execution instant an upper bound for the control's completion (for a graceful stop exactly min(process exit, grace expiry)). 1-4 bare ticket.await waiter tasks per ticket record their completion instants in virtual time (no timeout wrapper, so a lost wake-up is 'never'); compared with that bound, with job end for outstanding tickets, with the to_wait rule; closures must run exactly once; delete / delete_now / last-handle-drop and spawn/kill/signal failures at generated positions. Plus a multi-thread leg (2-4 concurrent senders, 1-3 waiter tasks per ticket, real millisecond timers, optional final delete / delete_now with work outstanding): once the run is quiet every waiter of every ticket has resolved, no closure ran twice, the task ended after a delete and never panicked.",
+   note="Same medium as C04. The bound relies on per-priority FIFO, which C10 checks separately. The multi-thread leg asserts no deadlines (real time), only eventual resolution within a 3 s watchdog after all processes have ended.",
    technique="proptest stateful sequences, history invariant on waiter completion instants (virtual time) with fault injection",
    ref="DESIGN.md §3 C07"),
  "C09": dict(
